@@ -58,6 +58,7 @@ type Contract struct {
 	Extern      bool
 	Inline      bool // callers inline the body instead of using the contract
 	Traces      []*TraceDecl
+	Allocates   []string // tracked struct types this function may allocate
 	Mode        string
 	OnlyLayers  map[string]bool
 	SkipKinds   map[string]bool
@@ -99,12 +100,18 @@ type SpecFunc struct {
 	PTypes []string // "int","bool","string","ref"
 	Ret    string
 	Def    *SExpr // non-nil for `define`
+	Opaque bool   // quantified conjuncts are abstracted by predicate symbols with definitional axioms
 }
 
 type Axiom struct {
 	Name string
 	Expr *SExpr
 	Text string
+}
+
+type TrackDecl struct {
+	Props []string
+	Types []string
 }
 
 type ContractDB struct {
@@ -116,6 +123,7 @@ type ContractDB struct {
 	Axioms      []*Axiom
 	Globals     map[string]string // pkg.Name -> "nonnil"
 	GhostFields map[string]string // name -> spec type
+	Tracked     []TrackDecl       // struct types (typeStr form) whose dynamic type is tracked in $type, per property
 	Files       []string
 	Errors      []string
 }
@@ -262,11 +270,17 @@ func (db *ContractDB) LoadContractFile(file, pkgPath string) {
 				errf("bad define")
 				return
 			}
+			opaque := false
+			if strings.HasPrefix(strings.TrimSpace(parts[0]), "opaque ") {
+				opaque = true
+				parts[0] = strings.TrimPrefix(strings.TrimSpace(parts[0]), "opaque ")
+			}
 			sf, err := parseSpecFuncDecl(strings.TrimSpace(parts[0]))
 			if err != nil {
 				errf("%v", err)
 				return
 			}
+			sf.Opaque = opaque
 			e, err := ParseSpecExpr(strings.TrimSpace(parts[1]))
 			if err != nil {
 				errf("%v", err)
@@ -291,6 +305,9 @@ func (db *ContractDB) LoadContractFile(file, pkgPath string) {
 			if len(fields) >= 3 {
 				db.Globals[fields[1]] = fields[2]
 			}
+		case "tracktype":
+			ps, r := parseProps(rest)
+			db.Tracked = append(db.Tracked, TrackDecl{Props: ps, Types: strings.Fields(r)})
 		case "ghostfield":
 			if len(fields) >= 3 {
 				db.GhostFields[fields[1]] = fields[2]
@@ -431,6 +448,8 @@ func (db *ContractDB) LoadContractFile(file, pkgPath string) {
 						cur.Modifies = append(cur.Modifies, m)
 					}
 				}
+			case "allocates":
+				cur.Allocates = append(cur.Allocates, strings.FieldsFunc(r, func(c rune) bool { return c == ',' || c == ' ' })...)
 			case "pure":
 				cur.Pure = true
 				cur.HasMod = true
